@@ -45,6 +45,21 @@ pub fn check_unary(a: u16) -> R {
     if dbg != wdbg {
         return fail("effects:debug", format!("Debug of {a:#05x} is {dbg:?}, expected {wdbg:?}"));
     }
+    // ... whatever width / precision / alignment / sign / alternate flags the caller uses (also inside a Style's Debug):
+    // the words of the output are exactly "Effects" and the member names
+    let flagged = [format!("{e:.3?}"), format!("{e:14?}"), format!("{e:<3.1?}"), format!("{e:#?}"), format!("{e:+.2?}"), format!("{e:08?}"), format!("{e:*^9.4?}")];
+    for (fi, out) in flagged.iter().enumerate() {
+        let words: Vec<&str> = out.split(|c: char| !(c.is_ascii_alphanumeric() || c == '_')).filter(|w| !w.is_empty()).collect();
+        let mut want_words = vec!["Effects"];
+        want_words.extend(wnames.iter().copied());
+        if words != want_words {
+            return fail("effects:debug-flags", format!("Debug of {a:#05x} under format flags (variant {fi}) is {out:?}, which does not name exactly the members {wnames:?}"));
+        }
+    }
+    let sdbg = format!("{:.2?}", Style::new().effects(e));
+    if !sdbg.contains(&wdbg) {
+        return fail("effects:debug-flags", format!("Debug of a Style with effects {a:#05x} under a precision flag is {sdbg:?}, which does not contain {wdbg:?}"));
+    }
     // convenience methods of Style == inserting the named effect; Style/Effects interplay
     let s = Style::new().effects(e);
     if fx_of(s.get_effects()) != a {
@@ -164,6 +179,85 @@ pub fn check_colors() -> R {
             }
             (false, None) => {}
             (_, other) => return fail("color:into_ansi", format!("Ansi256Color({n}).into_ansi() = {other:?}")),
+        }
+    }
+    for n in 0..=255u8 {
+        if anstyle::Color::from(n) != anstyle::Color::Ansi256(Ansi256Color(n)) {
+            return fail("color:from-u8", format!("Color::from({n}u8) is not the indexed colour {n}"));
+        }
+        let (r, g, b) = (n, n.wrapping_mul(7).wrapping_add(3), 255 - n);
+        if anstyle::Color::from((r, g, b)) != anstyle::Color::Rgb(anstyle::RgbColor(r, g, b)) || anstyle::RgbColor::from((r, g, b)) != anstyle::RgbColor(r, g, b) {
+            return fail("color:from-tuple", format!("From<(u8,u8,u8)> does not keep ({r},{g},{b})"));
+        }
+        let c = anstyle::RgbColor(r, g, b);
+        if (c.r(), c.g(), c.b()) != (r, g, b) {
+            return fail("color:rgb-accessors", format!("RgbColor({r},{g},{b}) accessors return ({},{},{})", c.r(), c.g(), c.b()));
+        }
+    }
+    for (i, a) in ANSI16.iter().enumerate() {
+        if anstyle::Color::from(*a) != anstyle::Color::Ansi(*a) {
+            return fail("color:from-ansi", format!("Color::from({a:?})"));
+        }
+        for (j, b) in ANSI16.iter().enumerate() {
+            let st = a.on(*b);
+            if st.get_fg_color() != Some(anstyle::Color::Ansi(*a)) || st.get_bg_color() != Some(anstyle::Color::Ansi(*b)) || st.get_underline_color().is_some() || !st.get_effects().is_plain() {
+                return fail("color:on", format!("{a:?}.on({b:?}) = {st:?} ({i},{j})"));
+            }
+        }
+        let d = a.on_default();
+        if d.get_fg_color() != Some(anstyle::Color::Ansi(*a)) || d.get_bg_color().is_some() {
+            return fail("color:on_default", format!("{a:?}.on_default() = {d:?}"));
+        }
+        let x = Ansi256Color(i as u8 * 16 + 3).on(*a);
+        if x.get_fg_color() != Some(anstyle::Color::Ansi256(Ansi256Color(i as u8 * 16 + 3))) || x.get_bg_color() != Some(anstyle::Color::Ansi(*a)) {
+            return fail("color:on", format!("Ansi256Color.on({a:?}) = {x:?}"));
+        }
+        let y = anstyle::RgbColor(i as u8, 2, 3).on(anstyle::RgbColor(9, i as u8, 7));
+        if y.get_fg_color() != Some(anstyle::Color::Rgb(anstyle::RgbColor(i as u8, 2, 3))) || y.get_bg_color() != Some(anstyle::Color::Rgb(anstyle::RgbColor(9, i as u8, 7))) {
+            return fail("color:on", format!("RgbColor.on = {y:?}"));
+        }
+        if Ansi256Color(i as u8).on_default().get_fg_color() != Some(anstyle::Color::Ansi256(Ansi256Color(i as u8))) || anstyle::RgbColor(1, i as u8, 3).on_default().get_bg_color().is_some() {
+            return fail("color:on_default", "typed on_default".into());
+        }
+    }
+    // equality, ordering and hashing of colour values are structural: two colours are equal exactly when they are the same
+    // kind with the same payload (a palette colour and the index with the same number are different values)
+    {
+        use anstyle::Color;
+        use std::hash::{Hash, Hasher};
+        let mut all: Vec<(u32, Color)> = vec![];
+        for (i, a) in ANSI16.iter().enumerate() {
+            all.push((0x1_0000 + i as u32, Color::Ansi(*a)));
+        }
+        for n in 0..=255u32 {
+            all.push((0x2_0000 + n, Color::Ansi256(Ansi256Color(n as u8))));
+        }
+        for n in 0..64u32 {
+            let (r, g, b) = ((n & 3) as u8 * 5, ((n >> 2) & 3) as u8 * 100, ((n >> 4) & 3) as u8);
+            all.push((0x3_000000 + ((r as u32) << 16) + ((g as u32) << 8) + b as u32, Color::Rgb(anstyle::RgbColor(r, g, b))));
+        }
+        let h = |c: &Color| {
+            let mut s = std::collections::hash_map::DefaultHasher::new();
+            c.hash(&mut s);
+            s.finish()
+        };
+        for (ka, ca) in &all {
+            for (kb, cb) in &all {
+                let same = ka == kb;
+                if (ca == cb) != same || (ca != cb) == same {
+                    return fail("color:eq", format!("{ca:?} == {cb:?} is {}", ca == cb));
+                }
+                if (ca.cmp(cb) == std::cmp::Ordering::Equal) != same || ca.partial_cmp(cb) != Some(ca.cmp(cb)) {
+                    return fail("color:ord", format!("{ca:?}.cmp({cb:?}) = {:?}, inconsistent with equality", ca.cmp(cb)));
+                }
+                if same && h(ca) != h(cb) {
+                    return fail("color:hash", format!("{ca:?}: equal values hash differently"));
+                }
+                let (sa, sb) = (Style::new().fg_color(Some(*ca)), Style::new().fg_color(Some(*cb)));
+                if (sa == sb) != same || (Style::new().underline_color(Some(*ca)) == Style::new().underline_color(Some(*cb))) != same {
+                    return fail("style:eq", format!("styles with {ca:?} / {cb:?} compare equal = {}", sa == sb));
+                }
+            }
         }
     }
     if seen.len() != 16 {
@@ -298,7 +392,7 @@ pub fn run(cfg: &Cfg) -> Stats {
         o
     });
     if pair_step == 1 {
-        st.exhaustive_parts.push("all 4096 x 4096 pairs of effect sets; all 4096 sets (iteration order, Debug, convenience methods); all 16 colours and all 256 indices".into());
+        st.exhaustive_parts.push("all 4096 x 4096 pairs of effect sets; all 4096 sets (iteration order, Debug under 8 format-flag combinations, convenience methods); all 16 colours and all 256 indices; equality / ordering / hashing of all pairs over 16 + 256 + 64 colour values".into());
     }
     st
 }
